@@ -366,6 +366,27 @@ def xsendfile2First (lc : Bool) (xdoc : List Bytes) (value : Bytes) : XsfRes :=
   else if !(xdoc.isEmpty || xdoc.any (fun x => isPrefixOf lc x p)) then .status 403
   else .send p
 
+/-- `http_response_xsendfile` / `…xsendfile2` entered with the status `st` that the backend response
+    already carries when the header is processed (`Status: 403` from a CGI, say).  Whether a file is
+    opened, and which one, does not depend on `st`.  The status after a refusal `c` (403 / 502) follows
+    the tail of both functions, `if (r->http_status >= 400 && status < 300) handler_module = NULL;
+    else if (0 != status && 200 != status) r->http_status = status;` — the refusal code shows only when the
+    backend's own status was below 300, otherwise the backend's status is put back. -/
+def xsfFinal (st c : Nat) : Nat := if st < 300 then c else st
+
+def xsendfileAt (lc : Bool) (xdoc : List Bytes) (st : Nat) (raw : Bytes) : XsfRes :=
+  -- invalid UTF-8 returns early: `if (r->http_status < 400) r->http_status = 502;`
+  if !validUtf8 (urldecodePath raw) then .status (if st < 400 then 502 else st) else
+  match xsendfilePath lc xdoc raw with
+  | .send p => .send p
+  | .status c => .status (xsfFinal st c)
+
+def xsendfile2At (lc : Bool) (xdoc : List Bytes) (st : Nat) (value : Bytes) : XsfRes :=
+  match xsendfile2First lc xdoc value with
+  | .send p => .send p
+  | .status 0 => .status st            -- a value that names nothing leaves the status alone
+  | .status c => .status (xsfFinal st c)
+
 /-! ### WebDAV Destination -/
 
 inductive DavDst
